@@ -57,6 +57,10 @@ type N struct {
 	// Spelling attributes.
 	TrimL bool `json:"triml,omitempty"` // '-' marker on opening delimiter(s)
 	TrimR bool `json:"trimr,omitempty"`
+	// TrimI: '-' markers on the inner delimiters of a verbatim section
+	// ({% verbatim -%}body{%- endverbatim %}); written only when the body
+	// neither begins nor ends with whitespace, so there is nothing to trim
+	TrimI bool `json:"trimi,omitempty"`
 }
 
 // Tpl is a named template.
